@@ -40,7 +40,7 @@ def handle (op rest : String) : Option String :=
       let I ← inst? hd items
       let P ← packing? ph rows
       let idt := match I.dtype? with | some t => t.name | none => "none"
-      pure s!"v={showRes (validate I P)} acc={decide (Accepts I P)} feas={feasibleB I P.rowsR P.nBins} idt={idt} valid={decide I.Valid}"
+      pure s!"v={showRes (validate I P)} acc={acceptsB I P} feas={feasibleFast I P.rowsR P.nBins} idt={idt} valid={decide I.Valid}"
   | "rt", [hd, items, ph, rows] => do
       let I ← inst? hd items
       let P ← packing? ph rows
